@@ -1,0 +1,12 @@
+//go:build verif
+
+package sdf
+
+import "math/rand"
+
+// VerifResetRand puts the library's private pseudo-random source back into its
+// initial state, so that a shape can be constructed twice within one process
+// with the same result (bezier sampling draws from it).
+func VerifResetRand() {
+	sdfRand = rand.New(rand.NewSource(1))
+}
